@@ -172,6 +172,34 @@ def cases(mode, scratch, thorough=False, seed=0):
             G.np = old
     for npnt, T in ((0, 1), (0, 4), (1, 1), (1, 4), (3, 4), (4, 4), (9, 4)):
         add(f'getPointsOnSphere-N{npnt}-T{T}', 'getPointsOnSphere', lambda npnt=npnt, T=T: sphere(npnt, T), modes=('nojit',))
+    # ---- satellites on an NFW profile (compute_fast_NFW directly; gen_sats_nfw through gen_gal_cat with all tracers so that its profile parameters are defined)
+    def th_nfw(ns, T):
+        rng = np.random.default_rng(11)
+        ns = np.asarray(ns, dtype=np.int64)
+        H, tot = len(ns), int(ns.sum())
+        rd = rng.normal(0, 1, (tot, 3))
+        G.compute_fast_NFW(rng.uniform(0.05, 2.9, tot), np.arange(H, dtype=np.int64), rng.random(H), rng.random(H), rng.random(H), rng.random(H), rng.random(H), rng.random(H),
+                           rng.uniform(100, 500, H), rng.uniform(3, 10, H), rng.uniform(1e12, 1e13, H), rng.uniform(0.2, 2, H), rd, ns, 1.0, 'rd_normal', T, 0.0, 1.0, 1.0)
+    for ns in ([], [0], [1], [0, 2, 0], [2, 1, 3]):
+        for T in (1, 4, 16):
+            add(f'compute_fast_NFW-{"_".join(map(str, ns)) or "none"}-T{T}', 'compute_fast_NFW', lambda ns=ns, T=T: th_nfw(ns, T), modes=('nojit',))
+
+    def th_gen_nfw(H, T):
+        rng = np.random.default_rng(7)
+        halos = hc.make_halos(rng, H)
+        parts = hc.make_particles(rng, halos, 2 * H)
+        tr = {t: dict(hc.TRACERS[t], f_sigv=1.0) for t in ('LRG', 'ELG', 'QSO')}
+        tr['ELG'].update(exp_frac=0.1, exp_scale=1.0, nfw_rescale=1.0)
+        old = G.np
+        G.np = _NpInt()
+        try:
+            with warnings.catch_warnings():
+                warnings.simplefilter('ignore')
+                G.gen_gal_cat(halos, parts, tr, hc.params(), Nthread=T, enable_ranks=False, rsd=True, nfw=True, NFW_draw=rng.uniform(0.01, 2.9, 5000), write_to_disk=False, verbose=False)
+        finally:
+            G.np = old
+    for H, T in ((0, 1), (1, 4), (3, 2), (12, 16)):
+        add(f'gen_sats_nfw-H{H}-T{T}', 'gen_sats_nfw/compute_fast_NFW/getPointsOnSphere', lambda H=H, T=T: th_gen_nfw(H, T), modes=('nojit',))
     from abacusnbody.hod.abacus_hod import _searchsorted_parallel
     add('searchsorted', '_searchsorted_parallel', lambda: [_searchsorted_parallel(np.array([2, 5, 9], dtype=np.int64), np.array(b, dtype=np.int64)) for b in ([], [1], [9], [10], [2, 5, 9, 4])], modes=('nojit',))
     from abacusnbody.hod import menv
